@@ -327,6 +327,10 @@ func Encrypt(pub *PublicKey, data []byte, random io.Reader, mode int) ([]byte, e
 }
 
 func Decrypt(priv *PrivateKey, data []byte, mode int) ([]byte, error) {
+	if len(data) < 1+64+32 {
+		// too short to contain the format byte, C1 and C3
+		return nil, errors.New("Decrypt: ciphertext too short")
+	}
 	switch mode {
 	case C1C3C2:
 		data = data[1:]
@@ -350,6 +354,10 @@ func Decrypt(priv *PrivateKey, data []byte, mode int) ([]byte, error) {
 	curve := priv.Curve
 	x := new(big.Int).SetBytes(data[:32])
 	y := new(big.Int).SetBytes(data[32:64])
+	if !curve.IsOnCurve(x, y) {
+		// GM/T 0003.4 7.1 B1: C1 must satisfy the curve equation (invalid-curve points leak the key)
+		return nil, errors.New("Decrypt: C1 is not on the curve")
+	}
 	x2, y2 := curve.ScalarMult(x, y, priv.D.Bytes())
 	x2Buf := x2.Bytes()
 	y2Buf := y2.Bytes()
